@@ -27,9 +27,10 @@ MC = {
     "thorough": [
         _mc("ok", [104], 0, 4, [2, 3], [11, 32, 21]),
         # n = 5, min_points 4 is the smallest domain in which a border point has a neighbour that no core point reaches
-        _mc("ok", [103], 5, 5, [3, 4], [11, 32]),
+        _mc("ok", [103], 5, 5, [4], [11, 32]),
         _mc("ok", [202], 0, 3, [2, 3], [11, 32, 21]),
         _mc("ok", [0], 0, 4, [2, 3], [11]),
+        _mc("ok", [103], 0, 4, [2, 3], [0]),                # infinite tolerance
     ],
 }
 # broken designs that the invariants must reject (TLC exit code 12 = invariant violated)
@@ -223,9 +224,9 @@ def run(ctx):
     generated = len(cases)
     ctx.exhaustive = True
     if ctx.quick and len(cases) > QUICK_CAP:
-        # always kept: n <= 2, zero features, and the n = 5 / min_points = 4 domain (the smallest inputs in which a
+        # always kept: n <= 2, zero features, the hand-picked 3-4-5 inputs, and the n = 5 / min_points = 4 domain (the smallest inputs in which a
         # border point has a neighbour that no core point reaches)
-        keep = lambda c: len(c["inp"]["pts"]) <= 2 or c["inp"]["dim"] == 0 or len(c["inp"]["pts"]) >= 5
+        keep = lambda c: len(c["inp"]["pts"]) <= 2 or c["inp"]["dim"] == 0 or len(c["inp"]["pts"]) >= 5 or c["kind"] == "special"
         small = [c for c in cases if keep(c)]
         rest = [c for c in cases if not keep(c)]
         ctx.rng.shuffle(rest)
